@@ -19,6 +19,11 @@
    before it is due).  Configurations whose armed operation would depend on a
    tie between two deadlines are not continued (NoTie).
 
+   A timer firing is two steps: TimerFire (the scheduler dequeues the armed
+   timer: it can no longer be cancelled) and TimerRun (its callback gets
+   Client.mu and executes the operation the connection's timerOp names AT THAT
+   MOMENT).  Commands, Client.Refresh and ticks interleave between the two.
+
    The reference for the property is kept in history variables that only the
    environment's own actions update: `dl` (the instant from which the
    connection counts as expired), `sdl` (same for the subscription), `owed`
@@ -60,14 +65,18 @@ VARIABLES
   auth, unusable,
   exp,          \* c.exp (0 = none)
   nX, nR, nP, nO,   \* nextExpire, nextPresence, nextPing, nextPong (0 = unset)
-  tmr,          \* the armed timer: [op, at]
+  tmr,          \* the armed timer: [op, at] (None once the scheduler dequeued it)
+  top,          \* c.timerOp: the operation the last arming chose (what a running callback dispatches on)
+  run,          \* a dequeued callback has not run yet
+  fop,          \* the operation it was armed for ("none" when nothing is dequeued)
+  raced,        \* history: a refresh was applied between the firing of an expire timer and its callback
   lp,           \* "none" | "pos" | "neg"
   sub,          \* [st: "none" | "live", exp: expireAt (0 = none)]
   closing,      \* spawned close() calls
   dl, sdl, owed,
   nact, out, cb, step
 
-vars == <<cfg, now, status, auth, unusable, exp, nX, nR, nP, nO, tmr, lp, sub, closing, dl, sdl, owed, nact, out, cb, step>>
+vars == <<cfg, now, status, auth, unusable, exp, nX, nR, nP, nO, tmr, top, run, fop, raced, lp, sub, closing, dl, sdl, owed, nact, out, cb, step>>
 
 F(t, c)  == [t |-> t, code |-> c]
 CB(k)    == [k |-> k]
@@ -84,38 +93,47 @@ Arm(x, r, p, o) ==
 NoTie(x, r, p, o) ==
   LET s == <<x, r, p, o>> IN \A i, j \in 1..4 : (i < j /\ s[i] > 0 /\ s[j] > 0) => s[i] # s[j]
 
+\* scheduleNextTimer: cancels the armed timer (a dequeued one is out of reach), arms the earliest deadline and
+\* records its operation in timerOp (unchanged when there is nothing to arm)
+ArmTo(a) == tmr' = a /\ top' = IF a = None THEN top ELSE a.op
+Steady == UNCHANGED <<run, fop, raced>>
+
 Init ==
   /\ cfg \in CfgSet
   /\ now = 0 /\ status = "connecting" /\ auth = FALSE /\ unusable = FALSE
   /\ exp = 0 /\ nX = 0 /\ nR = 0 /\ nP = 0 /\ nO = 0
-  /\ tmr = [op |-> "stale", at |-> FAR]
+  /\ tmr = [op |-> "stale", at |-> FAR] /\ top = "stale" /\ run = FALSE /\ fop = "none" /\ raced = FALSE
   /\ lp = "none" /\ sub = [st |-> "none", exp |-> 0]
   /\ closing = <<>> /\ dl = Inf /\ sdl = Inf /\ owed = FALSE
   /\ nact = 0 /\ out = <<>> /\ cb = <<>>
   /\ step = [act |-> "Init"]
 
+\* (a dequeued callback runs within the second it was dequeued in: dispatch latency is not seconds)
 Tick ==
-  /\ now < MaxNow * 10 /\ closing = <<>>
+  /\ now < MaxNow * 10 /\ closing = <<>> /\ ~run
   /\ now' = now + 10
-  /\ step' = [act |-> "Tick"]
-  /\ UNCHANGED <<cfg, status, auth, unusable, exp, nX, nR, nP, nO, tmr, lp, sub, closing, dl, sdl, owed, nact, out, cb>>
+  /\ step' = [act |-> "Tick"] /\ Steady
+  /\ UNCHANGED <<cfg, status, auth, unusable, exp, nX, nR, nP, nO, tmr, top, lp, sub, closing, dl, sdl, owed, nact, out, cb>>
 
 Acting == nact < MaxActs /\ nact' = nact + 1
 
-(* connect command; mode "err": OnConnecting returns an error, the connection stays open but unusable *)
+(* connect command.  mode "err": OnConnecting returns a client error; mode "sserr": OnConnecting accepts, then a
+   connect-time server-side subscription fails with a client error (after authenticated := TRUE and addClient).
+   Either way: error reply, the connection stays open but unusable, the stale timer is still what ends it *)
 Connect(mode) ==
-  /\ Acting /\ status = "connecting" /\ ~auth /\ ~unusable
-  /\ step' = [act |-> "Connect", mode |-> mode]
-  /\ IF mode = "err"
-       THEN /\ unusable' = TRUE /\ out' = Append(out, F("error", 101)) /\ cb' = Append(cb, CB("connecting"))
-            /\ UNCHANGED <<status, auth, exp, nX, nR, nP, nO, tmr, dl>>
+  /\ Acting /\ status = "connecting" /\ ~auth /\ ~unusable /\ ~run
+  /\ step' = [act |-> "Connect", mode |-> mode] /\ Steady
+  /\ IF mode \in {"err", "sserr"}
+       THEN /\ unusable' = TRUE /\ auth' = (mode = "sserr")
+            /\ out' = Append(out, F("error", IF mode = "err" THEN 101 ELSE 110)) /\ cb' = Append(cb, CB("connecting"))
+            /\ UNCHANGED <<status, exp, nX, nR, nP, nO, tmr, top, dl>>
        ELSE LET e  == IF cfg.E > 0 THEN now + cfg.E * 10 ELSE 0
                 x  == IF e > 0 THEN (IF cfg.csr THEN e + G ELSE e) ELSE 0
                 r  == now + FAR
                 p  == IF cfg.ping THEN now + P - 1 ELSE 0          \* first ping: somewhere in [P/2, P)
             IN /\ auth' = TRUE /\ status' = "connected" /\ exp' = e
                /\ nX' = x /\ nR' = r /\ nP' = p /\ nO' = 0
-               /\ tmr' = Arm(x, r, p, 0)
+               /\ ArmTo(Arm(x, r, p, 0))
                /\ out' = Append(out, F("connect", 0))
                /\ cb' = cb \o <<CB("connecting"), CB("connect")>>
                \* the connection counts as expired from its expiry (plus the grace delay under client-side refresh)
@@ -130,40 +148,51 @@ Subscribe ==
      /\ sub' = [st |-> "live", exp |-> e]
      /\ sdl' = IF e > 0 THEN e + D ELSE Inf
   /\ out' = Append(out, F("subscribe", 0)) /\ cb' = Append(cb, CB("subscribe"))
-  /\ step' = [act |-> "Subscribe"]
-  /\ UNCHANGED <<cfg, now, status, auth, unusable, exp, nX, nR, nP, nO, tmr, lp, closing, dl, owed>>
+  /\ step' = [act |-> "Subscribe"] /\ Steady
+  /\ UNCHANGED <<cfg, now, status, auth, unusable, exp, nX, nR, nP, nO, tmr, top, lp, closing, dl, owed>>
 
 Spawn(c) == closing' = Append(closing, c)
 
-(* the scheduler fires the armed timer; the expire timer is never fired before it is due *)
-TimerFire(mode) ==
-  /\ Acting /\ tmr # None /\ status # "closed" /\ closing = <<>>
+(* the scheduler dequeues the armed timer (the expire timer is never due early); its callback runs later *)
+TimerFire ==
+  /\ Acting /\ tmr # None /\ ~run /\ status # "closed" /\ closing = <<>>
   /\ tmr.op = "expire" => now >= tmr.at
-  /\ step' = [act |-> "TimerFire", op |-> tmr.op, mode |-> mode]
-  /\ CASE tmr.op = "stale" ->
+  /\ tmr' = None /\ run' = TRUE /\ fop' = tmr.op
+  /\ step' = [act |-> "TimerFire", op |-> tmr.op]
+  /\ UNCHANGED <<cfg, now, status, auth, unusable, exp, nX, nR, nP, nO, top, raced, lp, sub, closing, dl, sdl, owed, out, cb>>
+
+(* onTimerOp: the dequeued callback gets Client.mu and executes the operation timerOp names now *)
+TimerRun(mode) ==
+  /\ run /\ closing = <<>>
+  /\ run' = FALSE /\ fop' = "none"
+  /\ step' = [act |-> "TimerRun", op |-> top, mode |-> mode, fired |-> fop]
+  /\ IF status = "closed"
+       THEN /\ mode = "-"
+            /\ UNCHANGED <<exp, nX, nR, nP, nO, tmr, top, lp, sub, closing, dl, sdl, owed, out, cb>>
+       ELSE
+     CASE top = "stale" ->
             /\ mode = "-"
-            /\ tmr' = None
             /\ IF ~auth \/ unusable THEN Spawn(Stale) ELSE UNCHANGED closing
-            /\ UNCHANGED <<exp, nX, nR, nP, nO, lp, sub, dl, sdl, owed, out, cb>>
-       [] tmr.op = "ping" ->
+            /\ UNCHANGED <<exp, nX, nR, nP, nO, tmr, top, lp, sub, dl, sdl, owed, out, cb>>
+       [] top = "ping" ->
             /\ mode = "-"
             /\ LET o == IF cfg.pong THEN now + T ELSE 0
                    p == now + P
                IN /\ NoTie(nX, nR, p, o)
-                  /\ nO' = o /\ nP' = p /\ tmr' = Arm(nX, nR, p, o)
+                  /\ nO' = o /\ nP' = p /\ ArmTo(Arm(nX, nR, p, o))
             /\ lp' = "pos" /\ owed' = TRUE
             /\ out' = Append(out, F("ping", 0))
             /\ UNCHANGED <<exp, nX, nR, sub, closing, dl, sdl, cb>>
-       [] tmr.op = "pong" ->
+       [] top = "pong" ->
             /\ mode = "-"
             /\ IF lp = "neg"
                  THEN /\ NoTie(nX, nR, nP, 0)
-                      /\ nO' = 0 /\ tmr' = Arm(nX, nR, nP, 0) /\ UNCHANGED closing
-                 ELSE /\ tmr' = None /\ Spawn(NoPong) /\ UNCHANGED nO
+                      /\ nO' = 0 /\ ArmTo(Arm(nX, nR, nP, 0)) /\ UNCHANGED closing
+                 ELSE /\ Spawn(NoPong) /\ UNCHANGED <<nO, tmr, top>>
             /\ UNCHANGED <<exp, nX, nR, nP, lp, sub, dl, sdl, owed, out, cb>>
-       [] tmr.op = "presence" ->
+       [] top = "presence" ->
             \* re-arm first, alive callback, then the subscription expiry check
-            /\ LET r == now + FAR IN nR' = r /\ NoTie(nX, r, nP, nO) /\ tmr' = Arm(nX, r, nP, nO)
+            /\ LET r == now + FAR IN nR' = r /\ NoTie(nX, r, nP, nO) /\ ArmTo(Arm(nX, r, nP, nO))
             /\ UNCHANGED <<exp, nX, nP, nO, lp, dl, owed>>
             /\ IF sub.st = "live" /\ sub.exp > 0 /\ now > sub.exp + D
                  THEN IF cfg.scsr
@@ -187,58 +216,59 @@ TimerFire(mode) ==
                                                         /\ UNCHANGED <<closing, sdl>>
                  ELSE /\ mode = "-" /\ cb' = Append(cb, CB("alive"))
                       /\ UNCHANGED <<sub, sdl, out, closing>>
-       [] tmr.op = "expire" ->
+       [] top = "expire" ->
             IF exp = 0 THEN
               \* Client.Refresh removed the expiry: expire() returns without re-arming anything (as coded)
-              /\ mode = "-" /\ tmr' = None
-              /\ UNCHANGED <<exp, nX, nR, nP, nO, lp, sub, closing, dl, sdl, owed, out, cb>>
+              /\ mode = "-"
+              /\ UNCHANGED <<exp, nX, nR, nP, nO, tmr, top, lp, sub, closing, dl, sdl, owed, out, cb>>
             ELSE IF cfg.csr THEN
               \* checkExpired
               /\ mode = "-"
-              /\ IF exp > now THEN tmr' = None /\ UNCHANGED closing        \* (unreachable: never fired early)
-                                  ELSE tmr' = None /\ Spawn(Expired)
-              /\ UNCHANGED <<exp, nX, nR, nP, nO, lp, sub, dl, sdl, owed, out, cb>>
+              \* ttl > 0 (the callback of an older deadline, refreshed meanwhile): return, whatever is armed stays
+              /\ IF exp > now THEN UNCHANGED closing ELSE Spawn(Expired)
+              /\ UNCHANGED <<exp, nX, nR, nP, nO, tmr, top, lp, sub, dl, sdl, owed, out, cb>>
             ELSE
               \* server-side refresh: the RefreshHandler decides
               /\ mode \in {"extend", "zero", "expired", "disc"}
               /\ cb' = Append(cb, CB("refresh"))
               /\ CASE mode = "extend" -> /\ exp' = now + E2 /\ nX' = now + E2 /\ dl' = now + E2
                                          /\ NoTie(now + E2, nR, nP, nO)
-                                         /\ tmr' = Arm(now + E2, nR, nP, nO) /\ UNCHANGED closing
+                                         /\ ArmTo(Arm(now + E2, nR, nP, nO)) /\ UNCHANGED closing
                    \* "zero value means no expiration": the connection stays and never expires (the code closes it)
                    [] mode = "zero"   -> /\ exp' = 0 /\ nX' = 0 /\ dl' = Inf
-                                         /\ tmr' = Arm(0, nR, nP, nO) /\ UNCHANGED closing
-                   [] mode = "expired" -> /\ tmr' = None /\ Spawn(Expired) /\ UNCHANGED <<exp, nX, dl>>
-                   [] mode = "disc"   -> /\ tmr' = None /\ Spawn(HandlerDisc) /\ UNCHANGED <<exp, nX, dl>>
+                                         /\ ArmTo(Arm(0, nR, nP, nO)) /\ UNCHANGED closing
+                   [] mode = "expired" -> /\ Spawn(Expired) /\ UNCHANGED <<exp, nX, dl, tmr, top>>
+                   [] mode = "disc"   -> /\ Spawn(HandlerDisc) /\ UNCHANGED <<exp, nX, dl, tmr, top>>
               /\ UNCHANGED <<nR, nP, nO, lp, sub, sdl, owed, out>>
-  /\ UNCHANGED <<cfg, now, status, auth, unusable>>
+  /\ UNCHANGED <<cfg, now, status, auth, unusable, raced, nact>>
 
 (* the client answers a ping (or sends an unnecessary pong) *)
 Pong ==
   /\ Acting /\ status = "connected" /\ closing = <<>> /\ cfg.ping
-  /\ step' = [act |-> "Pong"]
+  /\ step' = [act |-> "Pong"] /\ Steady
   /\ IF lp = "pos" THEN lp' = "neg" /\ owed' = FALSE /\ UNCHANGED closing
                    ELSE Spawn(BadRequest) /\ UNCHANGED <<lp, owed>>
-  /\ UNCHANGED <<cfg, now, status, auth, unusable, exp, nX, nR, nP, nO, tmr, sub, dl, sdl, out, cb>>
+  /\ UNCHANGED <<cfg, now, status, auth, unusable, exp, nX, nR, nP, nO, tmr, top, sub, dl, sdl, out, cb>>
 
 (* refresh command (client-side refresh only; otherwise a bad request) *)
 ClientRefresh(mode) ==
   /\ Acting /\ status = "connected" /\ closing = <<>> /\ cfg.E > 0
   /\ mode \in {"extend", "zero", "expired"}
   /\ step' = [act |-> "ClientRefresh", mode |-> mode]
+  /\ UNCHANGED <<run, fop>> /\ raced' = (raced \/ (run /\ fop = "expire" /\ cfg.csr /\ mode = "extend"))
   /\ IF ~cfg.csr
-       THEN /\ Spawn(BadRequest) /\ UNCHANGED <<exp, nX, tmr, dl, out, cb>>
+       THEN /\ Spawn(BadRequest) /\ UNCHANGED <<exp, nX, tmr, top, dl, out, cb>>
        ELSE /\ cb' = Append(cb, CB("refresh"))
             /\ CASE mode = "extend" -> /\ exp' = now + E2 /\ nX' = now + E2 + G /\ dl' = now + E2 + G
                                        /\ NoTie(now + E2 + G, nR, nP, nO)
-                                       /\ tmr' = Arm(now + E2 + G, nR, nP, nO)
+                                       /\ ArmTo(Arm(now + E2 + G, nR, nP, nO))
                                        /\ out' = Append(out, F("refresh", 0)) /\ UNCHANGED closing
                  \* no expiration any more (the code leaves c.exp as it was and closes the connection later)
-                 [] mode = "zero"   -> /\ IF exp = 0 THEN UNCHANGED <<exp, nX, tmr>>     \* nothing to remove
-                                                     ELSE exp' = 0 /\ nX' = 0 /\ tmr' = Arm(0, nR, nP, nO)
+                 [] mode = "zero"   -> /\ IF exp = 0 THEN UNCHANGED <<exp, nX, tmr, top>>     \* nothing to remove
+                                                     ELSE exp' = 0 /\ nX' = 0 /\ ArmTo(Arm(0, nR, nP, nO))
                                        /\ dl' = Inf
                                        /\ out' = Append(out, F("refresh", 0)) /\ UNCHANGED closing
-                 [] mode = "expired" -> /\ Spawn(Expired) /\ UNCHANGED <<exp, nX, tmr, dl, out>>
+                 [] mode = "expired" -> /\ Spawn(Expired) /\ UNCHANGED <<exp, nX, tmr, top, dl, out>>
   /\ UNCHANGED <<cfg, now, status, auth, unusable, nR, nP, nO, lp, sub, sdl, owed>>
 
 (* Client.Refresh from the server API *)
@@ -246,22 +276,23 @@ ServerRefresh(mode) ==
   /\ Acting /\ status = "connected" /\ closing = <<>> /\ cfg.E > 0
   /\ mode \in {"extend", "zero", "expired"}
   /\ step' = [act |-> "ServerRefresh", mode |-> mode]
+  /\ UNCHANGED <<run, fop>> /\ raced' = (raced \/ (run /\ fop = "expire" /\ mode = "extend"))
   /\ CASE mode = "extend" -> /\ exp' = now + E2 /\ nX' = now + E2 + G /\ dl' = now + E2 + G
                              /\ NoTie(now + E2 + G, nR, nP, nO)
-                             /\ tmr' = Arm(now + E2 + G, nR, nP, nO)
+                             /\ ArmTo(Arm(now + E2 + G, nR, nP, nO))
                              /\ out' = Append(out, F("push_refresh", 0)) /\ UNCHANGED closing
        \* c.exp = 0; nextExpire and the armed timer stay as they are (as coded)
        [] mode = "zero"   -> /\ exp' = 0 /\ dl' = Inf
-                             /\ IF ServerZeroRearms THEN nX' = 0 /\ tmr' = Arm(0, nR, nP, nO) ELSE UNCHANGED <<nX, tmr>>
+                             /\ IF ServerZeroRearms THEN nX' = 0 /\ ArmTo(Arm(0, nR, nP, nO)) ELSE UNCHANGED <<nX, tmr, top>>
                              /\ out' = Append(out, F("push_refresh", 0)) /\ UNCHANGED closing
-       [] mode = "expired" -> /\ Spawn(Expired) /\ UNCHANGED <<exp, nX, tmr, dl, out>>
+       [] mode = "expired" -> /\ Spawn(Expired) /\ UNCHANGED <<exp, nX, tmr, top, dl, out>>
   /\ UNCHANGED <<cfg, now, status, auth, unusable, nR, nP, nO, lp, sub, sdl, owed, cb>>
 
 (* sub_refresh command (client-side refresh of the subscription only) *)
 SubRefresh(mode) ==
   /\ Acting /\ status = "connected" /\ closing = <<>> /\ sub.st = "live" /\ cfg.scsr /\ cfg.S > 0
   /\ mode \in {"extend", "zero", "past"}
-  /\ step' = [act |-> "SubRefresh", mode |-> mode]
+  /\ step' = [act |-> "SubRefresh", mode |-> mode] /\ Steady
   /\ cb' = Append(cb, CB("sub_refresh"))
   /\ CASE mode = "extend" -> /\ sub' = [sub EXCEPT !.exp = now + E2] /\ sdl' = now + E2 + D
                              /\ out' = Append(out, F("sub_refresh", 0))
@@ -269,12 +300,12 @@ SubRefresh(mode) ==
                              /\ out' = Append(out, F("sub_refresh", 0))
        \* an expiry in the past: error reply "expired", the subscription keeps its old expiry
        [] mode = "past"   -> /\ out' = Append(out, F("error", 110)) /\ UNCHANGED <<sub, sdl>>
-  /\ UNCHANGED <<cfg, now, status, auth, unusable, exp, nX, nR, nP, nO, tmr, lp, closing, dl, owed>>
+  /\ UNCHANGED <<cfg, now, status, auth, unusable, exp, nX, nR, nP, nO, tmr, top, lp, closing, dl, owed>>
 
 CloseRun ==
   /\ closing # <<>>
   /\ closing' = Tail(closing)
-  /\ step' = [act |-> "CloseRun", code |-> Head(closing)]
+  /\ step' = [act |-> "CloseRun", code |-> Head(closing)] /\ Steady /\ UNCHANGED top
   /\ IF status = "closed" THEN UNCHANGED <<status, tmr, out, cb, sub>>
      ELSE /\ status' = "closed" /\ tmr' = None
           /\ out' = Append(out, F("disc", Head(closing)))
@@ -286,9 +317,10 @@ CloseRun ==
 Next ==
   IF closing # <<>> THEN CloseRun ELSE
   \/ Tick
-  \/ \E m \in {"ok", "err"} : Connect(m)
+  \/ \E m \in {"ok", "err", "sserr"} : Connect(m)
   \/ Subscribe \/ Pong
-  \/ \E m \in {"-", "extend", "zero", "expired", "err", "disc"} : TimerFire(m)
+  \/ TimerFire
+  \/ \E m \in {"-", "extend", "zero", "expired", "err", "disc"} : TimerRun(m)
   \/ \E m \in {"extend", "zero", "expired"} : ClientRefresh(m) \/ ServerRefresh(m)
   \/ \E m \in {"extend", "zero", "past"} : SubRefresh(m)
 
@@ -300,33 +332,38 @@ Spec == Init /\ [][Next]_vars
 Closes(c)  == closing' # <<>> /\ closing'[Len(closing')] = c /\ Len(closing') = Len(closing) + 1
 
 \* pong timer: disconnect with no-pong exactly when the ping was not answered
-C36_Pong == [][(step'.act = "TimerFire" /\ step'.op = "pong") => (Closes(NoPong) <=> owed)]_vars
+C36_Pong == [][(step'.act = "TimerRun" /\ step'.op = "pong" /\ status # "closed") => (Closes(NoPong) <=> owed)]_vars
 \* stale timer: closes exactly the connections that never authenticated (or failed to)
-C36_Stale == [][(step'.act = "TimerFire" /\ step'.op = "stale") => (Closes(Stale) <=> (~auth \/ unusable))]_vars
+C36_Stale == [][(step'.act = "TimerRun" /\ step'.op = "stale" /\ status # "closed") => (Closes(Stale) <=> (~auth \/ unusable))]_vars
 \* expire timer: the connection is closed as expired exactly when it is past its (refreshed) deadline; under
 \* server-side refresh the handler's answer is the refresh
 C36_Expire ==
-  [][(step'.act = "TimerFire" /\ step'.op = "expire") =>
+  [][(step'.act = "TimerRun" /\ step'.op = "expire" /\ status # "closed") =>
        IF step'.mode \in {"-", "extend", "zero"} THEN (Closes(Expired) <=> (now >= dl /\ step'.mode = "-" /\ dl # Inf))
        ELSE closing' # <<>>]_vars
 \* no other action closes a connection as expired, except an explicit "expired" answer
 C36_OnlyTimers ==
-  [][(Closes(Expired) /\ step'.act # "TimerFire") => (step'.act \in {"ClientRefresh", "ServerRefresh"} /\ step'.mode = "expired")]_vars
+  [][(Closes(Expired) /\ step'.act # "TimerRun") => (step'.act \in {"ClientRefresh", "ServerRefresh"} /\ step'.mode = "expired")]_vars
 \* subscription: ended as expired at a presence tick exactly when past its (refreshed) deadline and not refreshed now
 UnsubscribedNow == Len(out') = Len(out) + 1 /\ out'[Len(out')] = F("unsub", UnsubExpired)
 C36_Sub ==
-  [][(step'.act = "TimerFire" /\ step'.op = "presence") =>
+  [][(step'.act = "TimerRun" /\ step'.op = "presence" /\ status # "closed") =>
        (UnsubscribedNow <=> (sub.st = "live" /\ sdl # Inf /\ now > sdl /\ step'.mode \notin {"extend", "zero"}))]_vars
-C36_SubOnlyTicks == [][UnsubscribedNow => (step'.act = "TimerFire" /\ step'.op = "presence")]_vars
+C36_SubOnlyTicks == [][UnsubscribedNow => (step'.act = "TimerRun" /\ step'.op = "presence")]_vars
 
 \* a connected connection keeps an armed timer (NOT part of C36; false as coded after Client.Refresh removed the
 \* expiry - documented in the family's report, not configured as an invariant)
-ArmedWhileConnected == (status = "connected" /\ closing = <<>>) => tmr # None
+ArmedWhileConnected == (status = "connected" /\ closing = <<>> /\ ~run) => tmr # None
 
 \* witness predicates (negated scenarios; TLC's counterexample is a schedule replayed on every run, no VIEW there)
 WitClientZero  == ~(step.act = "ClientRefresh" /\ step.mode = "zero" /\ cfg.csr /\ ~cfg.ping /\ status = "connected")
-WitHandlerZero == ~(step.act = "TimerFire" /\ step.op = "expire" /\ step.mode = "zero")
+WitHandlerZero == ~(step.act = "TimerRun" /\ step.op = "expire" /\ step.mode = "zero")
+\* an expire timer fired, a refresh was applied before its callback ran, and the connection is finally closed as
+\* expired at its NEW deadline
+WitLateRun     == ~(raced /\ cfg.csr /\ step.act = "TimerRun" /\ step.op = "expire" /\ step.mode = "-" /\ closing # <<>>)
+\* a connect answered with an error reply (after authentication), closed by the stale timer
+WitStaleAfterFailedConnect == ~(step.act = "TimerRun" /\ step.op = "stale" /\ auth /\ closing # <<>>)
 
 TypeOK == now <= MaxNow * 10 /\ nact <= MaxActs
-View == <<cfg, now, status, auth, unusable, exp, nX, nR, nP, nO, tmr, lp, sub, closing, dl, sdl, owed, nact, out, cb>>
+View == <<cfg, now, status, auth, unusable, exp, nX, nR, nP, nO, tmr, top, run, fop, raced, lp, sub, closing, dl, sdl, owed, nact, out, cb>>
 =============================================================================
